@@ -247,6 +247,8 @@ struct Stats {
     samples: Vec<serde_json::Value>,
 }
 
+static DISCARD_EVERY: std::sync::atomic::AtomicUsize = std::sync::atomic::AtomicUsize::new(1);
+static DISCARD_COUNTER: std::sync::atomic::AtomicUsize = std::sync::atomic::AtomicUsize::new(0);
 fn emit_all(w: &mut NdWriter, id: &str, text: &str, want: &[AEv], stats: &mut Stats) -> bool {
     if let Err(e) = render_check(text, want) {
         stats.render_fail += 1;
@@ -270,9 +272,13 @@ fn emit_all(w: &mut NdWriter, id: &str, text: &str, want: &[AEv], stats: &mut St
         }
         !raw.iter().any(|e| e.k == "AL") && nodes_from_events(&raw).map(|ns| ns.len() == 1 && matches!(ns[0], Node::Map { .. }) && ok(&ns[0])).unwrap_or(false)
     };
+    // (the discarding targets for every DISCARD_EVERY-th text: all of them in the quick tier, a sample of the much larger thorough one)
+    let n = DISCARD_COUNTER.fetch_add(1, std::sync::atomic::Ordering::Relaxed);
+    let discard = n % DISCARD_EVERY.load(std::sync::atomic::Ordering::Relaxed).max(1) == 0;
     for (pname, pol) in POLICIES {
         let (obs, eloc) = observe_tree_policy_loc(text, pol);
         w.put(&Rec { id: format!("{id}-{pname}"), yaml: text, raw: &raw, policy: pname, target: "pairs", obs, eloc, pos: &pos });
+        if !discard { continue; }
         let (obs, eloc) = observe_discarding(text, pol, false);
         w.put(&Rec { id: format!("{id}-{pname}-ign"), yaml: text, raw: &raw, policy: pname, target: "ignored", obs, eloc, pos: &pos });
         if scalar_keys_only {
@@ -312,6 +318,7 @@ pub fn run(args: &Args) -> i32 {
     let out = args.req("out");
     let mut w = NdWriter::create(out);
     let mut stats = Stats::default();
+    DISCARD_EVERY.store(args.num("discard-every", 1).max(1) as usize, std::sync::atomic::Ordering::Relaxed);
     let mut process = |id: String, doc: &[AEv], names: Option<&[String]>, w: &mut NdWriter, stats: &mut Stats, styles: &[&str]| {
         let nodes = match nodes_from_events(doc) {
             Ok(n) if n.len() == 1 => n,
